@@ -108,6 +108,7 @@ def run(rep, tier, rng):
 
     def exec_history(hist, bodies, hidx=0):
         Sel = ActionSelection if hidx % 2 == 0 else SubSel
+        peek = (hidx // 2) % 2 == 1
         obs, log = [], []
         with spa.Network() as net:
             s1, s2, s3 = spa.State(16), spa.State(16), spa.State(16)
@@ -143,10 +144,15 @@ def run(rep, tier, rng):
                                "nonscalar-reint": None}[cond]
                         if cond == "nonscalar-reint":
                             cnd = spa.reinterpret(s1)
+                        if peek:
+                            # looking at the block while it is still open (keys, length, membership) changes nothing
+                            list(blk_holder.keys()), len(blk_holder), ("x" in blk_holder), [k for k in blk_holder]
                         if name is None:
                             spa.ifmax(cnd, *args)
                         else:
                             spa.ifmax(name, cnd, *args)
+                        if peek:
+                            list(blk_holder.keys()), list(blk_holder.items())
                     elif st[0] == "free":
                         before = nconn()
                         s2 >> s1
@@ -225,7 +231,7 @@ def run(rep, tier, rng):
                     except Exception:  # noqa
                         getok = False
                 obs.append(f"(AObs {c.b(at_rest)} {classify(err)} {built} {keys} {c.b(getok)} {c.nat(dconns)} {c.b(inside_flag[0])})")
-                log.append({"event": ev, "block_class": Sel.__name__, "ifmax_outside_form": ["ifmax(0, a >> b)", "ifmax('named', 0, a >> b)", "ifmax(state, a >> b)"][hidx % 3],
+                log.append({"event": ev, "block_class": Sel.__name__, "keys_read_while_block_open": peek, "ifmax_outside_form": ["ifmax(0, a >> b)", "ifmax('named', 0, a >> b)", "ifmax(state, a >> b)"][hidx % 3],
                             "error": None if err is None else type(err).__name__, "at_rest": at_rest,
                             "built": None if blk is None else blk.built, "keys": None if blk is None else [str(k) for k in blk.keys()]})
                 # reset process-wide state so that one bad history cannot poison the next (recorded above)
